@@ -347,7 +347,18 @@ def D20():
     return bool(bad), f"addresses outside the grammar accepted: {bad}"
 
 
-ALL = [D01, D02a, D02a2, D02b, D02c, D06, D10, D12, D14a, D14b, D15, D15b,
+def D04():
+    c, tr = mk(force_caps=True)
+    try:
+        c.keyPress("A-B")
+    except TypeError as e:
+        return True, f"force_caps: keyPress('A-B') raises {e!r}"
+    evs = [t[1] for t in tr]
+    want = [struct.pack("!BBxxI", 4, d, k) for k, d in ((65, 1), (66, 1), (66, 0), (65, 0))]
+    return evs != want, f"force_caps: keyPress('A-B') wrote {[e.hex() for e in evs]}"
+
+
+ALL = [D04, D01, D02a, D02a2, D02b, D02c, D06, D10, D12, D14a, D14b, D15, D15b,
        D16a, D16b, D16c, D16d, D16e, D17a, D17b, D18, D20]
 
 if __name__ == "__main__":
